@@ -11,6 +11,7 @@ package middleware
 //@ func RequestID$1$1
 //@   params w r
 //@   property C19 C20
+//@   captures useReqID:bool reqIDHeader:string o:*middleware.RequestIDOptions h:http.Handler
 //@   requires w != nil && r != nil && r.ctx != nil && h != nil && o != nil
 //   -- capture invariant: the flags read when the middleware was built are those of the options object
 //@   requires useReqID == o.useRequestID && reqIDHeader == o.requestIDHeader
@@ -50,6 +51,7 @@ package middleware
 //@ func Trace$1$1
 //@   params w r
 //@   property C19 C20
+//@   captures o:*middleware.TraceOptions sampler:middleware.Sampler h:http.Handler
 //@   requires w != nil && r != nil && r.ctx != nil && h != nil && o != nil && sampler != nil
 //@   requires middleware.TraceIDKey != middleware.TraceSpanIDKey && middleware.TraceIDKey != middleware.TraceParentSpanIDKey && middleware.TraceSpanIDKey != middleware.TraceParentSpanIDKey
 //@   let inT = old(hdr(r.Header, "TraceID"))
